@@ -1,5 +1,15 @@
 package main
 
+import (
+	"fmt"
+	"go/token"
+	"go/types"
+	"sort"
+	"strings"
+
+	"golang.org/x/tools/go/ssa"
+)
+
 // Proof drivers beyond plain contracts (spec simulation, relational, frames, tables) and the
 // concrete replay of counterexamples.
 
@@ -19,6 +29,8 @@ func runExtras(r *Runner, p *Property, tier string) ([]*LedgerEntry, []string) {
 			out = append(out, specLemmaObligations(r)...)
 		case "dv-lemmas":
 			out = append(out, dvLemmaObligations(r)...)
+		case "global-store-scan":
+			out = append(out, globalStoreScan(r.eng)...)
 		}
 	}
 	return out, broken
@@ -93,4 +105,101 @@ func dvLemmaObligations(r *Runner) []*LedgerEntry {
 		e.failQ, e.failRes = q, res
 	}
 	return []*LedgerEntry{e}
+}
+
+// globalStoreScan: frame condition over EVERY function of the module's packages (not only those
+// under contract): no instruction stores into a package-level variable or into memory reached
+// through one (init functions, which run before main, excepted).
+func globalStoreScan(eng *Engine) []*LedgerEntry {
+	var out []*LedgerEntry
+	var fns []*ssa.Function
+	seen := map[*ssa.Function]bool{}
+	var addFn func(f *ssa.Function)
+	addFn = func(f *ssa.Function) {
+		if f == nil || seen[f] || len(f.Blocks) == 0 {
+			return
+		}
+		seen[f] = true
+		fns = append(fns, f)
+		for _, an := range f.AnonFuncs {
+			addFn(an)
+		}
+	}
+	for _, sp := range eng.spkgs {
+		for _, m := range sp.Members {
+			switch x := m.(type) {
+			case *ssa.Function:
+				addFn(x)
+			case *ssa.Type:
+				for _, T := range []types.Type{x.Type(), types.NewPointer(x.Type())} {
+					ms := eng.prog.MethodSets.MethodSet(T)
+					for k := 0; k < ms.Len(); k++ {
+						addFn(eng.prog.MethodValue(ms.At(k)))
+					}
+				}
+			}
+		}
+	}
+	sort.Slice(fns, func(i, j int) bool { return fns[i].String() < fns[j].String() })
+	var origin func(v ssa.Value, depth int) *ssa.Global
+	origin = func(v ssa.Value, depth int) *ssa.Global {
+		if depth > 12 {
+			return nil
+		}
+		switch x := v.(type) {
+		case *ssa.Global:
+			return x
+		case *ssa.FieldAddr:
+			return origin(x.X, depth+1)
+		case *ssa.IndexAddr:
+			return origin(x.X, depth+1)
+		case *ssa.Slice:
+			return origin(x.X, depth+1)
+		case *ssa.UnOp:
+			if x.Op == token.MUL {
+				return origin(x.X, depth+1)
+			}
+		case *ssa.ChangeType:
+			return origin(x.X, depth+1)
+		case *ssa.Phi:
+			for _, e := range x.Edges {
+				if g := origin(e, depth+1); g != nil {
+					return g
+				}
+			}
+		}
+		return nil
+	}
+	for _, f := range fns {
+		name := f.String()
+		if f.Name() == "init" || strings.Contains(f.Name(), "init#") || f.Synthetic != "" {
+			continue
+		}
+		pos := eng.prog.Fset.Position(f.Pos())
+		if strings.HasSuffix(pos.Filename, "_test.go") {
+			continue
+		}
+		e := &LedgerEntry{Name: "frames/" + strings.TrimPrefix(name, "github.com/willabides/rjson") + "/no-store-to-package-level-memory", Kind: "frame", Fn: f.Name(), Status: "discharged", Solver: "ssa-frame-scan"}
+		for _, b := range f.Blocks {
+			for _, ins := range b.Instrs {
+				var addr ssa.Value
+				switch x := ins.(type) {
+				case *ssa.Store:
+					addr = x.Addr
+				case *ssa.MapUpdate:
+					addr = x.Map
+				}
+				if addr == nil {
+					continue
+				}
+				e.Instances++
+				if g := origin(addr, 0); g != nil {
+					e.Status = "failed"
+					e.Detail = fmt.Sprintf("store into package-level variable %s at %s", g.Name(), eng.prog.Fset.Position(ins.Pos()))
+				}
+			}
+		}
+		out = append(out, e)
+	}
+	return out
 }
